@@ -20,6 +20,7 @@ import (
 	"crypto/sha256"
 	"encoding/hex"
 	"encoding/json"
+	"hash"
 	"net"
 	"os"
 	"path/filepath"
@@ -50,6 +51,7 @@ type verifJob struct {
 }
 
 type verifJobObs struct {
+	Mid      []*string `json:"mid"` // final path as seen between "last body byte written" and the digest verdict, one per fetch that got that far
 	Final    *string `json:"final"`
 	Part     *string `json:"part"`
 	Cnt      []int64 `json:"cnt"`
@@ -66,6 +68,34 @@ type verifReplCase struct {
 	Part0       *string       `json:"part0"`
 	Jobs        []verifJob    `json:"jobs"`
 	Obs         []verifJobObs `json:"obs"`
+}
+
+// ---- observation point inside Fetch ----------------------------------------------------------
+// fetch_client.go is overlaid with `hasher.Sum(nil)` rewritten to `verifSum(hasher, byteOffset)`:
+// the moment after the last body byte went into the pipe and before the whole-file digest is
+// compared.  The writer goroutine may still be flushing, so the final path is polled for a short
+// while (longer for resumed transfers); whatever shows up there is recorded.
+var (
+	verifMidFinal string
+	verifMid      []*string
+)
+
+func verifSum(h hash.Hash, byteOffset int64) []byte {
+	if verifMidFinal != "" {
+		rounds := 10
+		if byteOffset > 0 {
+			rounds = 50
+		}
+		var seen *string
+		for i := 0; i < rounds; i++ {
+			if seen = verifReadOpt(verifMidFinal); seen != nil {
+				break
+			}
+			time.Sleep(100 * time.Microsecond)
+		}
+		verifMid = append(verifMid, seen)
+	}
+	return h.Sum(nil)
 }
 
 // ---- scripted peer ------------------------------------------------------------------------
@@ -275,6 +305,7 @@ func TestVerifFileRepl(t *testing.T) {
 		entry := &raft.FileEntry{Path: "d/f", SHA256: sha, SizeBytes: c.Size, OriginNodeID: "origin", Database: "d", Measurement: "m"}
 		for _, j := range c.Jobs {
 			res.script, res.calls = j.Script, 0
+			verifMidFinal, verifMid = final, nil
 			if j.Catchup {
 				served := false
 				p.RunCatchUp(context.Background(), func(cursor string, limit int) ([]*raft.FileEntry, string, error) {
@@ -293,6 +324,7 @@ func TestVerifFileRepl(t *testing.T) {
 			}
 			st := p.Stats()
 			c.Obs = append(c.Obs, verifJobObs{
+				Mid:   append([]*string{}, verifMid...),
 				Final: verifReadOpt(final), Part: verifReadOpt(final + ".part"),
 				Cnt:   []int64{st["skipped_local"], st["pulled"], st["failed"], st["checksum_mismatch"], st["peer_lookup_failure"], st["bad_offset_server"]},
 				Fully: p.FullyCaughtUp(), CuFailed: st["catchup_failed"] > 0,
